@@ -18,6 +18,24 @@ Lemma glue_constants :
   svc_BLOCK_COUNT_CACHE_TIME = 3 /\ svc_fee_high_max_blocks = 1 /\ svc_fee_medium_max_blocks = 5.
 Proof. repeat split; reflexivity. Qed.
 
+(* the cache read paths as Model/CacheModel.v and Model/Service.v build them in:
+   Cache.gettransactions  block_height >= after_tx.block_height, block_height <= db_addr.last_block, ORDER BY
+     block_height, index (both queries), `len(txs) >= limit`, append before the `d.txid == after_txid` reset;
+   Cache.getutxos  outputs only, ORDER BY block_height, index, `spent is False` / `spent is None`, `txid == after_txid`;
+   Cache.getblocktransactions  block_height == height, n_from <= index < n_to (ORDER BY: followed by the model);
+   Service.gettransactions  `len(txs_cache) == limit`, `last_block >= self.blockcount()`, `len(txs) == limit`,
+     `txs is False`, `t.confirmations != 0`;  Service.getutxos `len(utxos) >= limit`;  Service.getblock
+     `page*limit > block.tx_count` *)
+Lemma glue_cache_reads :
+  svc_cgt_after_block_op = 5 /\ svc_cgt_last_block_op = 3 /\ svc_cgt_limit_op = 5 /\ svc_cgt_reset_op = 0 /\
+  svc_cgt_append_before_reset = 1 /\ svc_cgt_order_after = [1; 2] /\ svc_cgt_order_all = [1; 2] /\
+  svc_cgu_unspent_op = 6 /\ svc_cgu_unknown_op = 6 /\ svc_cgu_reset_op = 0 /\ svc_cgu_output_filter_op = 0 /\
+  svc_cgu_order = [1; 2] /\
+  svc_cbt_from_op = 5 /\ svc_cbt_to_op = 2 /\ svc_cbt_height_op = 0 /\
+  svc_sgt_page_full_op = 0 /\ svc_sgt_uptodate_op = 5 /\ svc_sgt_incomplete_op = 0 /\ svc_sgt_provider_false_op = 6 /\
+  svc_sgt_unconfirmed_op = 1 /\ svc_sgu_incomplete_op = 5 /\ svc_sgb_last_page_op = 4.
+Proof. repeat split; reflexivity. Qed.
+
 Lemma exec_trichotomy st ps :
   (forall v, fst (fst (lib_provider_execute st ps)) = Value v <-> 0 < eff_maxp st /\ answers_first (st_maxe st) 0 ps v) /\
   (fst (fst (lib_provider_execute st ps)) = RetFalse <-> 0 < eff_maxp st /\ limit_first (st_maxe st) 0 ps) /\
